@@ -18,15 +18,29 @@ SHRINK_LISTS = [('items',), ('items', '*', 'inner', '*'), ('items', '*', 'cuts')
 EXPECTED_PROBES = ['fragmented', 'ctl_between_fragments', 'empty_fragment',
                    'nonminimal_len', 'len64', 'reply_and_frames_same_read',
                    'cut_inside_header', 'final_close', 'app_close_mid_stream',
-                   'with_deflate', 'after_broken_connection']
+                   'with_deflate', 'after_broken_connection',
+                   'two_objects_interleaved']
 
 
 def plan(tier):
     return [('seeded', 10000 if tier == 'quick' else 150000),
-            ('big', 120 if tier == 'quick' else 4000)]
+            ('big', 120 if tier == 'quick' else 4000),
+            ('pair', 600 if tier == 'quick' else 20000)]
 
 
 def make_case(family, i, rng, tier):
+    if family == 'pair':
+        a = make_case('seeded', i, rng, tier)
+        b = make_case('seeded', i, rng, tier)
+        for c in (a, b):
+            c.pop('prelude', None)
+            c.pop('app_close_at', None)
+            c['gaps'] = [rng.choice([0, 0, 1000])]
+            if c.get('seg') == 'bytes':
+                c['seg'] = 'cuts'
+        n = rng.choice([2, 3, 5, 8])
+        return {'pair': [a, b],
+                'order': [rng.randrange(2) for _ in range(n)] + [0, 1]}
     big = family == 'big'
     items = ST.make_items(rng, 2 if big else 8, big=big)
     case = {'items': items, 'auto_pong': rng.random() < 0.7}
@@ -129,9 +143,33 @@ def build(case):
 
 
 def execute(case):
+    if 'pair' in case:
+        return _execute_pair(case)
     res = Result()
     scenario, expected, probes, layout = build(case)
     tr = netsim.run(scenario)
+    return _judge(res, case, tr, expected, probes, layout, '')
+
+
+def _execute_pair(case):
+    """Two WebSocket objects alive at once, their event loops advanced in
+    an interleaved order: neither may disturb the other."""
+    res = Result()
+    a, b = case['pair']
+    sa, ea, pa, la = build(a)
+    sb, eb, pb, lb = build(b)
+    traces = netsim.run_multi(netsim.pair_scenario(sa, sb, case.get('order')))
+    res.stats['probe:two_objects_interleaved'] += 1
+    _judge(res, a, traces[0], ea, pa, la, 'pair/')
+    h = res.digest
+    sig = res.sig
+    _judge(res, b, traces[1], eb, pb, lb, 'pair/')
+    res.digest = h + res.digest
+    res.sig = sig + '||' + res.sig
+    return res
+
+
+def _judge(res, case, tr, expected, probes, layout, tag):
     for k, v in probes.items():
         res.stats['probe:' + k] += v
     res.stats.update(tr.world.stats)
@@ -153,7 +191,7 @@ def execute(case):
             kind = 'payload_differs'
         else:
             kind = 'order_or_kind'
-        res.bad('C01/' + kind,
+        res.bad('C01/' + tag + kind,
                 'expected %d message events %s..., got %d %s...' % (
                     len(expected), _short(expected), len(got), _short(got)))
     for e in oracle.msg_events(tr):
